@@ -100,6 +100,15 @@ func init() {
 			fr.i.run.abort("fatal", "os.Exit")
 			return nil, true
 		},
+		"math.Floor": func(fr *frame, a []value) (value, bool) {
+			if f, ok := a[0].(symFloat); ok {
+				if f.den == nil {
+					return f, true
+				}
+				return symFloat{num: f.num, den: f.den, floored: true}, true
+			}
+			return nil, false
+		},
 		"os.Getwd": func(fr *frame, a []value) (value, bool) {
 			fr.i.run.stubs["os.Getwd (constant /repo)"]++
 			return tuple{"/repo", iface{}}, true
